@@ -416,7 +416,7 @@ pub fn run(tier: &str) -> i32 {
     // (maps are members by key set and values, whatever the key order on either side)
     let sc: Vec<V> = u.iter().filter(|v| (scalar(v) || matches!(v, V::Map(_))) && v.guard_expressible() && !matches!(v, V::Int(i64::MIN))).cloned().collect();
     let mut lists: Vec<Vec<V>> = vec![];
-    let pick: Vec<V> = vec![i(1), i(0), f(1.0), s("a"), s("1"), V::Bool(true), V::Null, f(0.5), m(vec![("b", i(2)), ("a", i(1))]), m(vec![("a", i(1))])];
+    let pick: Vec<V> = vec![i(1), i(0), f(1.0), s("a"), s("1"), V::Bool(true), V::Null, f(0.5), m(vec![("b", i(2)), ("a", i(1))]), m(vec![("a", i(1))]), V::Regex("^a".into()), V::Regex("b$".into())];
     for a in &pick {
         lists.push(vec![a.clone()]);
         for b in &pick {
@@ -437,7 +437,12 @@ pub fn run(tier: &str) -> i32 {
             let d = V::Map(vec![("x".into(), x.clone())]).json();
             let o = lib_run(&t, &d);
             acc.traces += 1;
-            let is_member = ls.iter().any(|e| e.t() == x.t() && struct_eq(e, x));
+            // a regular expression member matches strings (ranges inside list literals are not documented and not generated)
+            let is_member = ls.iter().any(|e| match (e, x) {
+                (V::Regex(p), V::Str(sx)) => crate::mre::search(p, sx) == Some(true),
+                (V::Regex(_), _) => false,
+                _ => e.t() == x.t() && struct_eq(e, x),
+            });
             let want = if is_member != opneg { St::Pass } else { St::Fail };
             *acc.outcomes.entry(format!("member-{}", o.class())).or_insert(0) += 1;
             if !matches!(&o, Obs::Ok(s, _) if *s == want) {
